@@ -329,7 +329,11 @@ func execNS(v avfs.VFS, c fsx.Call) result {
 
 		return r
 	case "WriteFile":
-		return errResult(v.WriteFile(c.A, []byte(c.Data), perm))
+		data := []byte(c.Data)
+		err := v.WriteFile(c.A, data, perm)
+		fsx.Scribble(data)
+
+		return errResult(err)
 	case "Truncate":
 		return errResult(v.Truncate(c.A, c.N))
 	case "Chmod":
@@ -375,8 +379,10 @@ func execNS(v avfs.VFS, c fsx.Call) result {
 		return valResult(err, entriesString(es))
 	case "ReadFile":
 		b, err := v.ReadFile(c.A)
+		val := fmt.Sprintf("%q", b)
+		fsx.Scribble(b) // a returned slice is the caller's: no file may change with it
 
-		return valResult(err, fmt.Sprintf("%q", b))
+		return valResult(err, val)
 	case "Readlink":
 		s, err := v.Readlink(c.A)
 
@@ -478,11 +484,15 @@ func execFile(v avfs.VFS, f avfs.File, c fsx.Call) result {
 
 		return valResult(err, fmt.Sprintf("%d %q", n, b[:n]))
 	case "Write":
-		n, err := f.Write([]byte(c.Data))
+		data := []byte(c.Data)
+		n, err := f.Write(data)
+		fsx.Scribble(data) // neither side may keep a reference to the caller's buffer
 
 		return valResult(err, fmt.Sprint(n))
 	case "WriteAt":
-		n, err := f.WriteAt([]byte(c.Data), c.M)
+		data := []byte(c.Data)
+		n, err := f.WriteAt(data, c.M)
+		fsx.Scribble(data)
 
 		return valResult(err, fmt.Sprint(n))
 	case "WriteString":
